@@ -729,7 +729,8 @@ def _aspire_world(cex, model, path, fail_at=None, resume=False):
                 a = Aspire.resume_from_file(path, log_likelihood=w.log_likelihood, log_prior=w.log_prior)
                 w.final = a.sample_posterior(preconditioning="none", **kw)
             else:
-                a = Aspire(log_likelihood=w.log_likelihood, log_prior=w.log_prior, dims=w.d, parameters=[f"p{k}" for k in range(w.d)], flow=PFlow(), xp=np)
+                extra = {"dtype": (np.float32 if cfg["dtype"] == "obj32" else cfg["dtype"])} if cfg.get("dtype") else {}
+                a = Aspire(log_likelihood=w.log_likelihood, log_prior=w.log_prior, dims=w.d, parameters=[f"p{k}" for k in range(w.d)], flow=PFlow(), xp=np, **extra)
                 w.final = a.sample_posterior(n_samples=w.N, sampler="smc", checkpoint_path=path, preconditioning="none", **kw)
     except RuntimeError as e:
         w.error = e
@@ -746,6 +747,8 @@ def _replay_resume_file(cex, model, props, bad, tmp):
         bad.append(f"{'C11' if 'C11' in props else 'C12'}[resume_constructor]: the reference run failed: {ref.error}")
         return {}
     total = ref.ll_calls
+    if "C15" in props:
+        oracle_run(ref, {"C15"}, bad, tag="[Aspire route]")
     points = range(1, total + 1) if cfg.get("all_crash_points") else [total]
     out = []
     for c in points:
@@ -781,6 +784,8 @@ def _replay_resume_file(cex, model, props, bad, tmp):
             continue
         if "C11" in props:
             compare(ref, res, bad, f"[resume_constructor crash@{c}]")
+        if "C15" in props and res.error is None and res.final is not None:
+            oracle_run(res, {"C15"}, bad, tag=f"[instance rebuilt by resume_from_file, crash@{c}]")
         out.append(c)
     return {"betas": [float(b) for b in ref.sampler.history.beta], "crash_points": out}
 
